@@ -12,6 +12,7 @@ import (
 	"github.com/PowerDNS/lightningstream/syncer/events"
 	"github.com/PowerDNS/lightningstream/syncer/hooks"
 	"github.com/PowerDNS/lightningstream/utils"
+	"github.com/PowerDNS/lightningstream/utils/verifhook"
 	"github.com/PowerDNS/lmdb-go/lmdb"
 	"github.com/c2h5oh/datasize"
 	"github.com/sirupsen/logrus"
@@ -105,6 +106,11 @@ func (s *Syncer) SendOnce(ctx context.Context, env *lmdb.Env) (txnID header.TxnI
 			if strings.HasPrefix(dbiName, SyncDBIPrefix) {
 				continue // skip our own special dbs
 			}
+			if schemaTracksChanges {
+				verifhook.Yield(ctx, "sendonce:in-view") // read-only transaction
+			} else {
+				verifhook.InWriteTxn(ctx, "sendonce:in-update")
+			}
 
 			readDBIName := dbiName
 			if !schemaTracksChanges {
@@ -128,6 +134,7 @@ func (s *Syncer) SendOnce(ctx context.Context, env *lmdb.Env) (txnID header.TxnI
 		return 0, err
 	}
 	tDumped := time.Now()
+	verifhook.Yield(ctx, "sendonce:after-txn")
 
 	// If no actual changes were made, LMDB will not record the transaction
 	// and reuse the ID the next time, so we need to adjust the txnID we return.
